@@ -64,7 +64,7 @@ CHECKS = {
          'Every argument vector of length 0-3 (thorough 4) over 23 argument kinds (incl. .yml-backed and .json-backed layers, an empty argument, an argument with blanks/unicode, --, four kinds of failing evaluation, two files with the same base name in different directories) and flag vectors of length 5-8 with one (two) non-flag arguments at every position, invoked as recb (symlink to bklb) and kubectl-bkl: same argument count, non-file arguments byte-identical in place, file arguments replaced by a file of the named format holding the evaluated layers, wrapped program not run when evaluation fails.',
          'File content is parsed with encoding/json, yaml.v3, go-toml called directly and compared with the known evaluated layers.', '4/C20'),
  'C19': ('E3', 'explicit-state breadth-first search over API histories with a reflective whole-Parser state key, plus stateless enumeration of all histories without de-duplication against a never-observed reference parser',
-         'Operation alphabet {4 template merges, MergeFileLayers, Documents, Output(json), Output(yaml), OutputDocuments, OutputToWriter}; all histories of length <=5 (thorough 6) without de-duplication; BFS to length 8 / 3 merges de-duplicated on a reflective dump of the Parser (unexported fields, pointer sharing) for 10 (thorough: every 4-subset of the 22 templates) template sets; one fresh process per (format, document) whose first, second, second-parser and post-$encode outputs must be the same bytes as in the long-running worker. Invariants: observations are self-loops, observations are a function of state, merges after observations behave as if never observed, returned bytes are stable, Documents() equals the merged unevaluated model tree.',
+         'Operation alphabet {4 template merges, MergeFileLayers, Documents, Output(json), Output(yaml), OutputDocuments, OutputToWriter}; all histories of length <=5 (thorough 6) without de-duplication; BFS to length 8 / 3 merges de-duplicated on a reflective dump of the Parser (unexported fields, pointer sharing) for 11 (thorough: 5 035: every 4-subset of the 19 general templates and each purpose-built group completed by every choice of general ones) template sets; one fresh process per (format, document) whose first, second, second-parser and post-$encode outputs must be the same bytes as in the long-running worker. Invariants: observations are self-loops, observations are a function of state, merges after observations behave as if never observed, returned bytes are stable, Documents() equals the merged unevaluated model tree.',
          'The never-observed reference is the same implementation on a fresh parser; package-level state is covered by the stateless enumeration and the fresh-process space rather than the state key.', '4/C19'),
 }
 NOT_YET = 'check not built yet in this session (work in progress; see DESIGN.md section 4 for the planned design)'
